@@ -172,7 +172,9 @@ def noself(decor_func):
     def _decor(*args, **kwargs):
         def outer(method):
             if "key" not in kwargs:
-                kwargs["key"] = get_cache_key_template(method, exclude_parameters=("self",))
+                # not stored in `kwargs`: they are shared by every method this decorator object is applied to
+                key = get_cache_key_template(method, exclude_parameters=("self",))
+                return decor_func(*args, key=key, **kwargs)(method)
             return decor_func(*args, **kwargs)(method)
 
         return outer
